@@ -937,6 +937,44 @@ def draw_cross(ctx, mods, r, cid, nmax):
         ctx.sample({"class": cname, "mode": mode, "metric": metric,
                     "shape": Rlib.shape, "recurrences": int(Rlib.sum()),
                     "tags": tags})
+    # ---- one trajectory replaced through the public property, then the
+    # plot regenerated at a fixed threshold on the live object
+    if r.random() < 0.4:
+        which = "y" if r.random() < 0.6 else "x"
+        old = Y if which == "y" else X
+        n2 = int(r.integers(1, max(2, old.shape[0] + 3)))
+        new = ref.as2d(ref.f32(gen_series(r, n2, old.shape[1], style)))
+        if new.shape[1] != old.shape[1]:
+            return
+        X2, Y2 = (X, new) if which == "y" else (new, Y)
+        D2 = ref.distance_matrix(X2, Y2, metric)
+        eps2, _ = draw_value(r, "threshold", D2, 0, exact, tol, None, False)
+        stags = tags + [f"after-{which}_embedded="]
+        scase = {**case, "replaced": which, "new_trajectory": new,
+                 "threshold": eps2}
+
+        def redo():
+            setattr(obj, which + "_embedded", new.astype(np.float64))
+            obj.set_fixed_threshold(eps2)
+            return np.asarray(obj.recurrence_matrix())
+        ok, R2 = ctx.call(redo)
+        ctx.evals()
+        ctx.count("crp_embedding_replaced")
+        if not ok:
+            ctx.violation(sig(cname, "set_fixed_threshold",
+                              f"raises:{type(R2).__name__}", stags),
+                          {**scase, "exc": repr(R2)}, cid)
+            return
+        compare_matrix(ctx, cname, "recurrence_matrix", R2,
+                       ref.threshold_matrix(D2, eps2), stags, scase, cid, D2,
+                       eps2, tol)
+        ok, Dl = ctx.call(obj.distance_matrix, metric)
+        if ok and (np.shape(Dl) != D2.shape or not np.all(
+                np.abs(np.asarray(Dl) - D2) <= (0.0 if exact else 1e-12) *
+                np.maximum(1.0, np.abs(D2)))):
+            ctx.violation(sig(cname, "distance_matrix", "differs",
+                              stags + [metric]),
+                          {**scase, "lib": Dl, "ref": D2}, cid)
 
 
 # ------------------------------------------------------------- joint ----
